@@ -24,12 +24,24 @@ Notation record_failure := (record_failure mf pb).
 (* the auth handler                                                                            *)
 (* ------------------------------------------------------------------------------------------ *)
 
-Lemma rf_frame s a : conns (record_failure s a) = conns s /\ index (record_failure s a) = index s /\
-  clients (record_failure s a) = clients s /\ next_id (record_failure s a) = next_id s /\
-  next_nonce (record_failure s a) = next_nonce s.
+Lemma ban_req_frame mono perm s a : conns (ban_req mono perm s a) = conns s /\ index (ban_req mono perm s a) = index s /\
+  clients (ban_req mono perm s a) = clients s /\ next_id (ban_req mono perm s a) = next_id s /\
+  next_nonce (ban_req mono perm s a) = next_nonce s /\ fails (ban_req mono perm s a) = fails s /\
+  black (ban_req mono perm s a) = black s /\ white (ban_req mono perm s a) = white s /\
+  rl_deny (ban_req mono perm s a) = rl_deny s /\ next_secret (ban_req mono perm s a) = next_secret s.
+Proof.
+  unfold ban_req. destruct perm; [cbn; repeat split; reflexivity|].
+  destruct (mono && banned s a && permb s a); cbn; repeat split; reflexivity.
+Qed.
+
+Lemma rf_frame mono s a : conns (record_failure mono s a) = conns s /\ index (record_failure mono s a) = index s /\
+  clients (record_failure mono s a) = clients s /\ next_id (record_failure mono s a) = next_id s /\
+  next_nonce (record_failure mono s a) = next_nonce s.
 Proof.
   unfold Auth.record_failure.
-  destruct ((pb <=? fails s a + 1) || (mf <=? fails s a + 1)); cbn; repeat split; reflexivity.
+  destruct (pb <=? fails s a + 1); [|destruct (mf <=? fails s a + 1)];
+    try (match goal with |- context [ban_req ?m ?p ?t ?x] => destruct (ban_req_frame m p t x) as (H1 & H2 & H3 & H4 & H5 & _) end;
+         rewrite H1, H2, H3, H4, H5); cbn; repeat split; reflexivity.
 Qed.
 
 Lemma gate_fail_false s a m : gate_fail true s a m = false ->
@@ -40,34 +52,34 @@ Proof.
 Qed.
 
 (* what a handler call can do to the server state and to the ControlConnection *)
-Inductive auth_result (chk keep : bool) (s : srv) (c : cc) (a : N) (m : hs) : srv -> cc -> aresp -> Prop :=
+Inductive auth_result (chk : bool) (v : variant) (s : srv) (c : cc) (a : N) (m : hs) : srv -> cc -> aresp -> Prop :=
 | AR_gated : gate_fail chk s a m = true ->
-    auth_result chk keep s c a m s c AFail
+    auth_result chk v s c a m s c AFail
 | AR_new : gate_fail chk s a m = false -> h_cid m = 0 -> h_new m = true ->
-    auth_result chk keep s c a m (first_state keep s a)
+    auth_result chk v s c a m (first_state (v_first_keeps v) s a)
       {| authed := true; ccid := next_id s; pending := pending c |} (ASuccessNew (next_id s))
 | AR_unknown : gate_fail chk s a m = false -> clients s (h_cid m) = None ->
-    auth_result chk keep s c a m (record_failure s a) c AFail
+    auth_result chk v s c a m (record_failure (v_ban_monotone v) s a) c AFail
 | AR_expired : forall cl, gate_fail chk s a m = false -> clients s (h_cid m) = Some cl -> expired cl = true ->
-    auth_result chk keep s c a m s c AFail
+    auth_result chk v s c a m s c AFail
 | AR_phase1 : forall cl, gate_fail chk s a m = false -> clients s (h_cid m) = Some cl -> expired cl = false ->
     h_resp m = None -> stored cl <> CEmpty ->
-    auth_result chk keep s c a m (bump_nonce s) {| authed := authed c; ccid := ccid c; pending := Some (next_nonce s) |}
+    auth_result chk v s c a m (bump_nonce s) {| authed := authed c; ccid := ccid c; pending := Some (next_nonce s) |}
       (AChallenge (next_nonce s))
 | AR_nochal : forall cl r, gate_fail chk s a m = false -> clients s (h_cid m) = Some cl -> expired cl = false ->
     h_resp m = Some r -> pending c = None ->
-    auth_result chk keep s c a m (record_failure s a) c AFail
+    auth_result chk v s c a m (record_failure (v_ban_monotone v) s a) c AFail
 | AR_ok : forall cl sec ch, gate_fail chk s a m = false -> clients s (h_cid m) = Some cl -> expired cl = false ->
     stored cl = CKey sec -> h_resp m = Some (hmac sec ch) -> pending c = Some ch ->
-    auth_result chk keep s c a m (clear_fails s a) {| authed := true; ccid := h_cid m; pending := None |} ASuccess
+    auth_result chk v s c a m (clear_fails s a) {| authed := true; ccid := h_cid m; pending := None |} ASuccess
 | AR_bad : forall cl ch r, gate_fail chk s a m = false -> clients s (h_cid m) = Some cl -> expired cl = false ->
     h_resp m = Some r -> pending c = Some ch -> (forall sec, stored cl = CKey sec -> r <> hmac sec ch) ->
-    auth_result chk keep s c a m (record_failure s a) {| authed := authed c; ccid := ccid c; pending := None |} AFail
+    auth_result chk v s c a m (record_failure (v_ban_monotone v) s a) {| authed := authed c; ccid := ccid c; pending := None |} AFail
 | AR_noconf : forall cl, gate_fail chk s a m = false -> clients s (h_cid m) = Some cl -> expired cl = false ->
     h_resp m = None -> stored cl = CEmpty ->
-    auth_result chk keep s c a m s c AFail.
+    auth_result chk v s c a m s c AFail.
 
-Lemma auth_cases chk keep s c a m : let '(s1, c1, ar) := auth chk keep s c a m in auth_result chk keep s c a m s1 c1 ar.
+Lemma auth_cases chk v s c a m : let '(s1, c1, ar) := auth chk v s c a m in auth_result chk v s c a m s1 c1 ar.
 Proof.
   unfold Auth.auth.
   destruct (gate_fail chk s a m) eqn:Hg; [apply AR_gated; exact Hg|].
@@ -85,19 +97,19 @@ Proof.
   + eapply AR_bad; eauto. intros sec' E. rewrite Hst in E. discriminate.
 Qed.
 
-Lemma auth_result_frame chk keep s c a m s1 c1 ar : auth_result chk keep s c a m s1 c1 ar ->
+Lemma auth_result_frame chk v s c a m s1 c1 ar : auth_result chk v s c a m s1 c1 ar ->
   conns s1 = conns s /\ index s1 = index s.
 Proof.
   intro H; destruct H; cbn; try (split; reflexivity);
-    try (unfold first_state; destruct keep; split; reflexivity);
-    destruct (rf_frame s a) as (Hc & Hi & _); split; assumption.
+    try (unfold first_state; destruct (v_first_keeps v); split; reflexivity);
+    destruct (rf_frame (v_ban_monotone v) s a) as (Hc & Hi & _); split; assumption.
 Qed.
 
-Lemma auth_result_nonsuccess chk keep s c a m s1 c1 ar : auth_result chk keep s c a m s1 c1 ar -> is_success ar = false ->
+Lemma auth_result_nonsuccess chk v s c a m s1 c1 ar : auth_result chk v s c a m s1 c1 ar -> is_success ar = false ->
   authed c1 = authed c /\ ccid c1 = ccid c /\ clients s1 = clients s /\ next_id s1 = next_id s.
 Proof.
   intros H Hs; destruct H; cbn in *; try discriminate; repeat split; try reflexivity;
-    destruct (rf_frame s a) as (_ & _ & Hcl & Hn & _); assumption.
+    destruct (rf_frame (v_ban_monotone v) s a) as (_ & _ & Hcl & Hn & _); assumption.
 Qed.
 
 (* ------------------------------------------------------------------------------------------ *)
@@ -191,7 +203,7 @@ Definition install_cond (v : variant) (h : hs) (c1 : cc) (ar : aresp) : bool :=
 Lemma handle_shape chk v s k h cn :
   conns s k = Some cn ->
   let c0 := match c_cc cn with Some c => c | None => new_cc end in
-  forall s1 c1 ar, auth chk (v_first_keeps v) s c0 (c_addr cn) h = (s1, c1, ar) ->
+  forall s1 c1 ar, auth chk v s c0 (c_addr cn) h = (s1, c1, ar) ->
   let s3 := post_auth s1 k cn c1 in
   fst (handle chk v s k (Some h)) = s3 \/
   (fst (handle chk v s k (Some h)) = install s3 k cn c1 /\ install_cond v h c1 ar = true /\ c_open cn = true /\ ar <> AFail).
@@ -304,16 +316,16 @@ Proof.
   eapply authed_as_ext; [|exact Ha]. rewrite Hc. reflexivity.
 Qed.
 
-Lemma auth_result_fresh chk keep s c a m s1 c1 ar : auth_result chk keep s c a m s1 c1 ar -> fresh s -> fresh s1.
+Lemma auth_result_fresh chk v s c a m s1 c1 ar : auth_result chk v s c a m s1 c1 ar -> fresh s -> fresh s1.
 Proof.
   intros H Hf; destruct H; try assumption;
-    try (intros x Hx; destruct (rf_frame s a) as (_ & _ & Hcl & Hn & _); rewrite Hcl; apply Hf; rewrite Hn in Hx; assumption).
-  - intros x Hx. unfold first_state in *. destruct keep; cbn in *; rewrite upd_other by lia; apply Hf; lia.
+    try (intros x Hx; destruct (rf_frame (v_ban_monotone v) s a) as (_ & _ & Hcl & Hn & _); rewrite Hcl; apply Hf; rewrite Hn in Hx; assumption).
+  - intros x Hx. unfold first_state in *. destruct (v_first_keeps v); cbn in *; rewrite upd_other by lia; apply Hf; lia.
 Qed.
 
-Lemma handle_post_auth_inv chk keep s k cn h s1 c1 ar :
+Lemma handle_post_auth_inv chk v s k cn h s1 c1 ar :
   idx_inv s -> conns s k = Some cn ->
-  auth_result chk keep s (match c_cc cn with Some c => c | None => new_cc end) (c_addr cn) h s1 c1 ar ->
+  auth_result chk v s (match c_cc cn with Some c => c | None => new_cc end) (c_addr cn) h s1 c1 ar ->
   idx_inv (post_auth s1 k cn c1).
 Proof.
   intros Hinv Hc Har. destruct (auth_result_frame _ _ _ _ _ _ _ _ _ Har) as [Hcs His].
@@ -328,8 +340,8 @@ Proof.
   intros [Hf Hinv]. destruct m as [h|]; [|exact (conj Hf Hinv)].
   destruct (conns s k) as [cn|] eqn:Hc; [|unfold Auth.handle; rewrite Hc; exact (conj Hf Hinv)].
   set (c0 := match c_cc cn with Some c => c | None => new_cc end).
-  destruct (auth chk (v_first_keeps v) s c0 (c_addr cn) h) as [[s1 c1] ar] eqn:Ha.
-  pose proof (auth_cases chk (v_first_keeps v) s c0 (c_addr cn) h) as Har. rewrite Ha in Har.
+  destruct (auth chk v s c0 (c_addr cn) h) as [[s1 c1] ar] eqn:Ha.
+  pose proof (auth_cases chk v s c0 (c_addr cn) h) as Har. rewrite Ha in Har.
   pose proof (handle_post_auth_inv _ _ _ _ _ _ _ _ _ Hinv Hc Har) as H3.
   pose proof (auth_result_fresh _ _ _ _ _ _ _ _ _ Har Hf) as Hf1.
   destruct (handle_shape chk v s k h cn Hc s1 c1 ar Ha) as [He|(He & Hcond & _ & _)]; rewrite He.
@@ -353,10 +365,23 @@ Proof.
   eapply authed_as_ext; [|exact Ha]. cbn [conns set_conns]. apply upd_other. assumption.
 Qed.
 
+Lemma wf_ext s s' : conns s' = conns s -> index s' = index s -> clients s' = clients s -> next_id s' = next_id s ->
+  wf s -> wf s'.
+Proof.
+  intros Hc Hi Hcl Hn [Hf Hinv]. split.
+  - intros x Hx. rewrite Hcl. apply Hf. rewrite <- Hn. exact Hx.
+  - eapply idx_inv_ext; eassumption.
+Qed.
+
+Lemma ban_req_wf mono perm s a : wf s -> wf (ban_req mono perm s a).
+Proof.
+  destruct (ban_req_frame mono perm s a) as (H1 & H2 & H3 & H4 & _). apply wf_ext; assumption.
+Qed.
+
 Lemma step_wf v s e : wf s -> wf (fst (step v s e)).
 Proof.
-  intros Hw. destruct e; cbn [Auth.step fst]; try (apply handle_wf; assumption); destruct Hw as [Hf Hinv].
-  - split; [exact Hf|]. eapply idx_inv_ext; [| |exact Hinv]; reflexivity.
+  intros Hw. destruct e; cbn [Auth.step fst]; try (apply handle_wf; assumption); try (apply ban_req_wf; assumption);
+    destruct Hw as [Hf Hinv].
   - split; [exact Hf|]. eapply idx_inv_ext; [| |exact Hinv]; reflexivity.
   - split; [exact Hf|]. eapply idx_inv_ext; [| |exact Hinv]; reflexivity.
   - split; [exact Hf|]. eapply idx_inv_ext; [| |exact Hinv]; reflexivity.
@@ -402,8 +427,14 @@ Proof.
     + intros y Hy. cbn in *. unfold upd. destruct (N.eqb_spec y x) as [->|_]; [|apply Hf; exact Hy].
       rewrite (Hf _ Hy) in Hc. discriminate.
     + eapply idx_inv_ext; [| |exact Hinv]; reflexivity.
+  - (* EBanLapse *) destruct (v_ban_monotone v); [exact (conj Hf Hinv)|].
+    split; [exact Hf|]. eapply idx_inv_ext; [| |exact Hinv]; reflexivity.
   - exact (conj Hf Hinv).
-  - exact (conj Hf Hinv).
+  - split; [exact Hf|]. eapply idx_inv_ext; [| |exact Hinv]; reflexivity.
+  - split; [exact Hf|]. eapply idx_inv_ext; [| |exact Hinv]; reflexivity.
+  - (* ETempLapse *) destruct (permb s a); [exact (conj Hf Hinv)|].
+    split; [exact Hf|]. eapply idx_inv_ext; [| |exact Hinv]; reflexivity.
+  - split; [exact Hf|]. eapply idx_inv_ext; [| |exact Hinv]; reflexivity.
   - split; [exact Hf|]. eapply idx_inv_ext; [| |exact Hinv]; reflexivity.
   - split; [exact Hf|]. eapply idx_inv_ext; [| |exact Hinv]; reflexivity.
 Qed.
@@ -444,8 +475,8 @@ Proof.
   intros [Hf Hinv] Ha. destruct m as [h|]; [|left; exact Ha].
   destruct (conns s k0) as [cn|] eqn:Hc; [|unfold Auth.handle in Ha; rewrite Hc in Ha; left; exact Ha].
   set (c0 := match c_cc cn with Some c => c | None => new_cc end).
-  destruct (auth chk (v_first_keeps v) s c0 (c_addr cn) h) as [[s1 c1] ar] eqn:Hau.
-  pose proof (auth_cases chk (v_first_keeps v) s c0 (c_addr cn) h) as Har. rewrite Hau in Har.
+  destruct (auth chk v s c0 (c_addr cn) h) as [[s1 c1] ar] eqn:Hau.
+  pose proof (auth_cases chk v s c0 (c_addr cn) h) as Har. rewrite Hau in Har.
   destruct (auth_result_frame _ _ _ _ _ _ _ _ _ Har) as [Hcs His].
   assert (Ha3 : authed_as (post_auth s1 k0 cn c1) k x).
   { destruct (handle_shape chk v s k0 h cn Hc s1 c1 ar Hau) as [He|(He & Hcond & _ & _)]; rewrite He in Ha; [exact Ha|].
@@ -488,6 +519,7 @@ Proof.
   intros Hw Ha. destruct e; cbn [Auth.step fst] in Ha; try (left; exact Ha).
   - destruct (handle_authed_justified _ _ _ _ _ _ _ Hw Ha) as [H|(-> & h & -> & H & G)]; [left; exact H|].
     right. left. exists h. split; [reflexivity|]. split; [apply G; reflexivity|exact H].
+  - (* EBan *) left. eapply authed_as_ext; [|exact Ha]. destruct (ban_req_frame (v_ban_monotone v) false s a) as [E _]. rewrite E. reflexivity.
   - (* ERestart *) exfalso. destruct Ha as (cn & c & H1 & _). destruct lapsed; discriminate.
   - (* EExpire *) left. destruct (clients s x0); exact Ha.
   - (* EDelAnon *) left. destruct (v_anon_delete v); exact Ha.
@@ -499,8 +531,10 @@ Proof.
     + rewrite upd_same in H1. injection H1 as <-. destruct H as [H _]. discriminate.
     + rewrite upd_other in H1 by assumption. apply (close_authed s k0). exists cn, c. auto.
   - (* ESetRecord *) left. destruct (clients s x0); exact Ha.
+  - (* EBanLapse *) left. destruct (v_ban_monotone v); exact Ha.
   - (* EBody *) destruct (handle_authed_justified _ _ _ _ _ _ _ Hw Ha) as [H|(-> & h & Hm & H & _)]; [left; exact H|].
     injection Hm as <-. right. right. exists m. auto.
+  - (* ETempLapse *) left. destruct (permb s a); exact Ha.
 Qed.
 
 (* history form: every authenticated connection has a proof step on that same connection in its history; for a handshake
@@ -571,7 +605,7 @@ Proof. repeat split; auto. Qed.
 
 Lemma handle_out_auth chk v s k h cn :
   conns s k = Some cn ->
-  forall s1 c1 ar, auth chk (v_first_keeps v) s (match c_cc cn with Some c => c | None => new_cc end) (c_addr cn) h = (s1, c1, ar) ->
+  forall s1 c1 ar, auth chk v s (match c_cc cn with Some c => c | None => new_cc end) (c_addr cn) h = (s1, c1, ar) ->
   o_auth (snd (handle chk v s k (Some h))) = Some ar.
 Proof.
   intros Hc s1 c1 ar Ha. unfold Auth.handle. rewrite Hc, Ha.
@@ -586,8 +620,8 @@ Proof.
   intros [Hf Hinv] Hns. destruct m as [h|]; [|apply inert_refl].
   destruct (conns s k) as [cn|] eqn:Hc; [|unfold Auth.handle; rewrite Hc; apply inert_refl].
   set (c0 := match c_cc cn with Some c => c | None => new_cc end).
-  destruct (auth chk (v_first_keeps current_variant) s c0 (c_addr cn) h) as [[s1 c1] ar] eqn:Hau.
-  pose proof (auth_cases chk (v_first_keeps current_variant) s c0 (c_addr cn) h) as Har. rewrite Hau in Har.
+  destruct (auth chk current_variant s c0 (c_addr cn) h) as [[s1 c1] ar] eqn:Hau.
+  pose proof (auth_cases chk current_variant s c0 (c_addr cn) h) as Har. rewrite Hau in Har.
   unfold not_success in Hns. rewrite (handle_out_auth _ _ _ _ _ _ Hc _ _ _ Hau) in Hns.
   destruct (auth_result_frame _ _ _ _ _ _ _ _ _ Har) as [Hcs His].
   destruct (auth_result_nonsuccess _ _ _ _ _ _ _ _ _ Har Hns) as (E1 & E2 & E3 & _).
@@ -617,7 +651,7 @@ Theorem gated v s k h cn :
 Proof.
   intros [Hf Hinv] Hc Hg.
   set (c0 := match c_cc cn with Some c => c | None => new_cc end).
-  assert (Hau : auth true (v_first_keeps v) s c0 (c_addr cn) h = (s, c0, AFail)).
+  assert (Hau : auth true v s c0 (c_addr cn) h = (s, c0, AFail)).
   { unfold Auth.auth, gate_fail. destruct Hg as [Hg|Hg]; rewrite Hg; [reflexivity|]. rewrite orb_true_r. reflexivity. }
   split; [apply (handle_out_auth true v s k h cn Hc _ _ _ Hau)|].
   destruct (handle_shape true v s k h cn Hc s c0 AFail Hau) as [He|(_ & _ & _ & Hne)]; [|contradiction].
@@ -649,51 +683,65 @@ Definition same_gate (s s' : srv) : Prop :=
   (forall x, match clients s x, clients s' x with
              | Some c, Some c' => same_rec c c' | None, None => True | _, _ => False end) /\
   next_id s = next_id s' /\ next_secret s = next_secret s' /\ next_nonce s = next_nonce s' /\
-  (forall a, banned s a = banned s' a) /\ (forall a, black s a = black s' a) /\ (forall a, white s a = white s' a) /\
+  (forall a, banned s a = banned s' a) /\ (forall a, permb s a = permb s' a) /\ (forall a, black s a = black s' a) /\ (forall a, white s a = white s' a) /\
   (forall a, fails s a = fails s' a) /\ rl_deny s = rl_deny s' /\
   (forall k, conns s k = conns s' k) /\ (forall x, index s x = index s' x).
 
-Lemma same_gate_record_failure s s' a : same_gate s s' -> same_gate (record_failure s a) (record_failure s' a).
+Lemma same_gate_ban_req mono perm s s' a : same_gate s s' -> same_gate (ban_req mono perm s a) (ban_req mono perm s' a).
 Proof.
-  intros (Hc & Hi & Hs & Hn & Hb & Hbl & Hwl & Hf & Hr & Hcn & Hix). unfold Auth.record_failure. rewrite <- (Hf a).
-  destruct ((pb <=? fails s a + 1) || (mf <=? fails s a + 1));
+  intros (Hc & Hi & Hs & Hn & Hb & Hpb & Hbl & Hwl & Hf & Hr & Hcn & Hix). unfold ban_req. rewrite <- (Hb a), <- (Hpb a).
+  destruct perm; [|destruct (mono && banned s a && permb s a)];
     (split; [exact Hc|]); cbn; repeat split; try assumption;
     try (intro a0; unfold upd; destruct (a0 =? a); auto).
 Qed.
 
+Lemma same_gate_set_fails s s' a f : same_gate s s' -> same_gate (set_fails s (upd (fails s) a f)) (set_fails s' (upd (fails s') a f)).
+Proof.
+  intros (Hc & Hi & Hs & Hn & Hb & Hpb & Hbl & Hwl & Hf & Hr & Hcn & Hix).
+  (split; [exact Hc|]); cbn; repeat split; try assumption. intro a0; unfold upd; destruct (a0 =? a); auto.
+Qed.
+
+Lemma same_gate_record_failure mono s s' a : same_gate s s' -> same_gate (record_failure mono s a) (record_failure mono s' a).
+Proof.
+  intro H. pose proof H as (_ & _ & _ & _ & _ & _ & _ & _ & Hf & _). unfold Auth.record_failure. rewrite <- (Hf a).
+  pose proof (same_gate_set_fails s s' a (fails s a + 1) H) as H1.
+  destruct (pb <=? fails s a + 1); [apply same_gate_ban_req; exact H1|].
+  destruct (mf <=? fails s a + 1); [apply same_gate_ban_req; exact H1|exact H1].
+Qed.
+
 Lemma same_gate_clear_fails s s' a : same_gate s s' -> same_gate (clear_fails s a) (clear_fails s' a).
 Proof.
-  intros (Hc & Hi & Hs & Hn & Hb & Hbl & Hwl & Hf & Hr & Hcn & Hix). unfold clear_fails.
+  intros (Hc & Hi & Hs & Hn & Hb & Hpb & Hbl & Hwl & Hf & Hr & Hcn & Hix). unfold clear_fails.
   (split; [exact Hc|]); cbn; repeat split; try assumption. intro a0; unfold upd; destruct (a0 =? a); auto.
 Qed.
 
 Lemma same_gate_bump s s' : same_gate s s' -> same_gate (bump_nonce s) (bump_nonce s').
 Proof.
-  intros (Hc & Hi & Hs & Hn & Hb & Hbl & Hwl & Hf & Hr & Hcn & Hix).
+  intros (Hc & Hi & Hs & Hn & Hb & Hpb & Hbl & Hwl & Hf & Hr & Hcn & Hix).
   (split; [exact Hc|]); cbn; repeat split; try assumption. rewrite Hn. reflexivity.
 Qed.
 
 Lemma same_gate_register s s' : same_gate s s' -> same_gate (register s) (register s').
 Proof.
-  intros (Hc & Hi & Hs & Hn & Hb & Hbl & Hwl & Hf & Hr & Hcn & Hix). unfold same_gate, register; cbn. rewrite <- Hi, <- Hs.
+  intros (Hc & Hi & Hs & Hn & Hb & Hpb & Hbl & Hwl & Hf & Hr & Hcn & Hix). unfold same_gate, register; cbn. rewrite <- Hi, <- Hs.
   split; [|repeat split; assumption].
   intro x. unfold upd. destruct (x =? next_id s); [split; reflexivity|apply Hc].
 Qed.
 
 (* whatever the non-gate fields are: same response, same ControlConnection, and the states stay related *)
-Theorem auth_ignores_meta chk keep s s' c a m : same_gate s s' ->
-  let '(s1, c1, r) := auth chk keep s c a m in
-  let '(s1', c1', r') := auth chk keep s' c a m in
+Theorem auth_ignores_meta chk v s s' c a m : same_gate s s' ->
+  let '(s1, c1, r) := auth chk v s c a m in
+  let '(s1', c1', r') := auth chk v s' c a m in
   c1 = c1' /\ r = r' /\ same_gate s1 s1'.
 Proof.
-  intro H. pose proof H as (Hc & Hi & Hs & Hn & Hb & Hbl & Hwl & Hf & Hr & Hcn & Hix).
+  intro H. pose proof H as (Hc & Hi & Hs & Hn & Hb & Hpb & Hbl & Hwl & Hf & Hr & Hcn & Hix).
   unfold Auth.auth, gate_fail, blocked, listed.
-  rewrite <- (Hbl (k_ip a)), <- (Hbl (k_cidr a)), <- (Hwl (k_ip a)), <- (Hwl (k_cidr a)), <- (Hb a), <- Hr, <- Hi, <- Hn.
-  destruct (chk && (negb (white s (k_ip a) || white s (k_cidr a)) && (black s (k_ip a) || black s (k_cidr a)) || banned s a
-                    || (h_cid m =? 0) && rl_deny s)); [auto|].
+  rewrite <- (Hbl (k_ip a)), <- (Hbl (k_cidr a)), <- (Hbl (k_wide a)), <- (Hwl (k_ip a)), <- (Hwl (k_cidr a)), <- (Hwl (k_wide a)),
+          <- (Hb a), <- Hr, <- Hi, <- Hn.
+  match goal with |- context [if ?g then _ else _] => destruct g end; [auto|].
   destruct ((h_cid m =? 0) && h_new m).
   { split; [reflexivity|]. split; [reflexivity|]. unfold first_state.
-    destruct keep; [apply same_gate_register; exact H|apply same_gate_clear_fails; apply same_gate_register; exact H]. }
+    destruct (v_first_keeps v); [apply same_gate_register; exact H|apply same_gate_clear_fails; apply same_gate_register; exact H]. }
   specialize (Hc (h_cid m)).
   destruct (clients s (h_cid m)) as [cl|], (clients s' (h_cid m)) as [cl'|]; try contradiction.
   2:{ split; [reflexivity|]. split; [reflexivity|]. apply same_gate_record_failure. exact H. }
@@ -720,7 +768,7 @@ Qed.
 
 (* the asynchronous removal of an expired ban, and a short ban that runs out, never lift a ban in force *)
 Lemma async_unban_is_inert v s a :
-  fst (step v s (EUnbanLands a)) = s /\ fst (step v s (EBanLapse a)) = s.
+  fst (step v s (EUnbanLands a)) = s /\ fst (step current_variant s (EBanLapse a)) = s.
 Proof. split; reflexivity. Qed.
 
 End Proofs.
@@ -793,6 +841,8 @@ Lemma k_cidr_ne a a' : (k_cidr a =? k_ip a') = false.
 Proof. apply N.eqb_neq. unfold k_cidr, k_ip. lia. Qed.
 Lemma k_ip_ne a a' : a <> a' -> (k_ip a =? k_ip a') = false.
 Proof. intro H. apply N.eqb_neq. unfold k_ip. lia. Qed.
+Lemma k_wide_ne a a' : (k_wide a =? k_ip a') = false.
+Proof. apply N.eqb_neq. unfold k_wide, k_ip. lia. Qed.
 
 (* a restart is invisible for the IP lists: the black- and whitelist (hence the gate decision for every address)
    after the restart are those before it, whatever sequence of edits produced them; it drops every connection and
@@ -808,10 +858,10 @@ Lemma restart_keeps_lists hmac mf pb v s lapsed :
 Proof.
   cbv zeta. split; [intros ->; split; reflexivity|]. split; [destruct lapsed; reflexivity|]. split.
   { intros a a' -> Hne. unfold blocked, listed; cbn [Auth.step fst restart black white set_black]; unfold upd.
-    rewrite (k_cidr_ne a a'), (k_ip_ne a a' Hne). reflexivity. }
+    rewrite (k_cidr_ne a a'), (k_wide_ne a a'), (k_ip_ne a a' Hne). reflexivity. }
   split.
   { intros a a' -> H. unfold blocked, listed; cbn [Auth.step fst restart black white set_black]; unfold upd.
-    rewrite (k_cidr_ne a a'), H. rewrite !orb_true_r. reflexivity. }
+    rewrite (k_cidr_ne a a'), (k_wide_ne a a'), H. rewrite !orb_true_r. cbn. reflexivity. }
   destruct lapsed; cbn; auto.
 Qed.
 
@@ -827,57 +877,110 @@ Qed.
 (* a ban in force stays in force until UnbanIP or a restart: no other event — in particular no success of an
    overlapping handshake from the same address (RecordSuccess), no failure, no lapse, no asynchronous removal — lifts it *)
 Definition lifts_ban (a : N) (e : ev) : bool :=
+  match e with EUnban a' => a' =? a | ERestart _ => true | ETempLapse a' => a' =? a | EBanLapse a' => a' =? a | _ => false end.
+(* ... a PERMANENT ban is lifted by UnbanIP / restart only (repaired code): not by the end of any temporary period *)
+Definition lifts_perm (a : N) (e : ev) : bool :=
   match e with EUnban a' => a' =? a | ERestart _ => true | _ => false end.
 
-Lemma rf_banned_mono mf pb s a a' : banned s a = true -> banned (record_failure mf pb s a') a = true.
+(* "ban strength" preserved: in force (P = fun b _ => b) or in force and permanent *)
+Definition ban_in_force (s : srv) (a : N) : Prop := banned s a = true.
+Definition perm_banned (s : srv) (a : N) : Prop := banned s a = true /\ permb s a = true.
+
+Lemma ban_req_banned mono perm s a a' : banned s a = true -> banned (ban_req mono perm s a') a = true.
+Proof.
+  intro H. unfold ban_req. destruct perm; [|destruct (mono && banned s a' && permb s a')]; cbn; try exact H;
+    unfold upd; destruct (a =? a'); auto.
+Qed.
+Lemma ban_req_perm perm s a a' : perm_banned s a -> perm_banned (ban_req true perm s a') a.
+Proof.
+  intros [H1 H2]. unfold ban_req, perm_banned.
+  destruct perm.
+  - cbn. unfold upd. destruct (a =? a'); auto.
+  - destruct (N.eqb_spec a a') as [->|Hne].
+    + rewrite H1, H2. cbn. auto.
+    + destruct (true && banned s a' && permb s a'); cbn; [auto|]. unfold upd.
+      destruct (N.eqb_spec a a'); [contradiction|auto].
+Qed.
+
+Lemma rf_banned_mono mf pb mono s a a' : banned s a = true -> banned (record_failure mf pb mono s a') a = true.
 Proof.
   intro H. unfold record_failure.
-  destruct ((pb <=? fails s a' + 1) || (mf <=? fails s a' + 1)); cbn; [|exact H].
-  unfold upd. destruct (a =? a'); [reflexivity|exact H].
+  destruct (pb <=? fails s a' + 1); [apply ban_req_banned; exact H|].
+  destruct (mf <=? fails s a' + 1); [apply ban_req_banned; exact H|exact H].
 Qed.
-
-Lemma auth_banned_mono hmac mf pb chk keep s c a' m a :
-  banned s a = true -> banned (fst (fst (auth hmac mf pb chk keep s c a' m))) a = true.
+Lemma rf_perm mf pb s a a' : perm_banned s a -> perm_banned (record_failure mf pb true s a') a.
 Proof.
-  intro H. pose proof (auth_cases hmac mf pb chk keep s c a' m) as Har.
-  destruct (auth hmac mf pb chk keep s c a' m) as [[s1 c1] ar]. cbn.
-  destruct Har; try exact H; try (apply rf_banned_mono; exact H).
-  unfold first_state. destruct keep; exact H.
+  intro H. unfold record_failure.
+  destruct (pb <=? fails s a' + 1); [apply ban_req_perm; exact H|].
+  destruct (mf <=? fails s a' + 1); [apply ban_req_perm; exact H|exact H].
 Qed.
 
-Lemma evict_banned s k : banned (evict s k) = banned s.
-Proof. unfold evict. destruct (conns s k) as [cn|]; [|reflexivity]. destruct (c_cc cn); reflexivity. Qed.
+Lemma auth_banned_mono hmac mf pb chk v s c a' m a :
+  banned s a = true -> banned (fst (fst (auth hmac mf pb chk v s c a' m))) a = true.
+Proof.
+  intro H. pose proof (auth_cases hmac mf pb chk v s c a' m) as Har.
+  destruct (auth hmac mf pb chk v s c a' m) as [[s1 c1] ar]. cbn.
+  destruct Har; try exact H; try (apply rf_banned_mono; exact H).
+  unfold first_state. destruct (v_first_keeps v); exact H.
+Qed.
+Lemma auth_perm hmac mf pb chk v s c a' m a : v_ban_monotone v = true ->
+  perm_banned s a -> perm_banned (fst (fst (auth hmac mf pb chk v s c a' m))) a.
+Proof.
+  intros Hm H. pose proof (auth_cases hmac mf pb chk v s c a' m) as Har.
+  destruct (auth hmac mf pb chk v s c a' m) as [[s1 c1] ar]. cbn.
+  destruct Har; try exact H; try (rewrite Hm; apply rf_perm; exact H).
+  unfold first_state. destruct (v_first_keeps v); exact H.
+Qed.
+
+Lemma evict_banned s k : banned (evict s k) = banned s /\ permb (evict s k) = permb s.
+Proof. unfold evict. destruct (conns s k) as [cn|]; [|auto]. destruct (c_cc cn); auto. Qed.
+
+(* the session layer does not touch the ban table: after handleHandshake it is what the auth handler left *)
+Lemma handle_ban_fields hmac mf pb chk v s k h cn :
+  conns s k = Some cn ->
+  let s1 := fst (fst (auth hmac mf pb chk v s (match c_cc cn with Some c => c | None => new_cc end) (c_addr cn) h)) in
+  banned (fst (handle hmac mf pb chk v s k (Some h))) = banned s1 /\ permb (fst (handle hmac mf pb chk v s k (Some h))) = permb s1.
+Proof.
+  intros Hc.
+  destruct (auth hmac mf pb chk v s (match c_cc cn with Some c => c | None => new_cc end) (c_addr cn) h) as [[s1 c1] ar] eqn:Ha.
+  cbn [fst].
+  destruct (handle_shape hmac mf pb chk v s k h cn Hc s1 c1 ar Ha) as [He|(He & _)]; rewrite He.
+  - split; reflexivity.
+  - unfold install. cbn [banned permb set_index set_conns].
+    destruct (index (post_auth s1 k cn c1) (ccid c1)) as [k'|]; [|split; reflexivity].
+    destruct (k' =? k); [split; reflexivity|]. destruct (evict_banned (post_auth s1 k cn c1) k') as [E1 E2]. rewrite E1, E2. split; reflexivity.
+Qed.
 
 Lemma handle_banned_mono hmac mf pb chk v s k m a :
   banned s a = true -> banned (fst (handle hmac mf pb chk v s k m)) a = true.
 Proof.
   intro H. destruct m as [h|]; [|exact H].
   destruct (conns s k) as [cn|] eqn:Hc; [|unfold handle; rewrite Hc; exact H].
-  pose proof (auth_banned_mono hmac mf pb chk (v_first_keeps v) s (match c_cc cn with Some c => c | None => new_cc end) (c_addr cn) h a H) as Hm.
-  destruct (auth hmac mf pb chk (v_first_keeps v) s (match c_cc cn with Some c => c | None => new_cc end) (c_addr cn) h) as [[s1 c1] ar] eqn:Ha.
-  cbn in Hm.
-  destruct (handle_shape hmac mf pb chk v s k h cn Hc s1 c1 ar Ha) as [He|(He & _)]; rewrite He.
-  - exact Hm.
-  - unfold install. cbn [banned set_index set_conns].
-    destruct (index (post_auth s1 k cn c1) (ccid c1)) as [k'|]; [|exact Hm].
-    destruct (k' =? k); [exact Hm|]. rewrite evict_banned. exact Hm.
+  destruct (handle_ban_fields hmac mf pb chk v s k h cn Hc) as [E _]. cbv zeta in E. rewrite E.
+  apply auth_banned_mono. exact H.
+Qed.
+Lemma handle_perm hmac mf pb chk v s k m a : v_ban_monotone v = true ->
+  perm_banned s a -> perm_banned (fst (handle hmac mf pb chk v s k m)) a.
+Proof.
+  intros Hm H. destruct m as [h|]; [|exact H].
+  destruct (conns s k) as [cn|] eqn:Hc; [|unfold handle; rewrite Hc; exact H].
+  destruct (handle_ban_fields hmac mf pb chk v s k h cn Hc) as [E1 E2]. cbv zeta in *. unfold perm_banned. rewrite E1, E2.
+  apply auth_perm; assumption.
 Qed.
 
 Lemma step_banned_mono hmac mf pb v s e a :
   banned s a = true -> lifts_ban a e = false -> banned (fst (step hmac mf pb v s e)) a = true.
 Proof.
-  intros H Hl. destruct e; cbn [step fst]; try exact H; try discriminate Hl.
-  - apply handle_banned_mono. exact H.
-  - cbn. unfold upd. destruct (a =? a0); [reflexivity|exact H].
+  intros H Hl. destruct e; cbn [step fst]; try exact H; try discriminate Hl;
+    try (apply handle_banned_mono; exact H); try (apply ban_req_banned; exact H);
+    try (destruct (clients s x); exact H).
   - cbn in *. unfold upd. rewrite N.eqb_sym, Hl. exact H.
-  - destruct (clients s x); exact H.
   - destruct (v_anon_delete v); exact H.
   - unfold rekey. destruct (clients s x); exact H.
-  - destruct (clients s x); exact H.
-  - unfold close. cbn. rewrite evict_banned. exact H.
-  - unfold close. cbn. rewrite evict_banned. exact H.
-  - destruct (clients s x); exact H.
-  - apply handle_banned_mono. exact H.
+  - unfold close. cbn. destruct (evict_banned s k) as [E _]. rewrite E. exact H.
+  - unfold close. cbn. destruct (evict_banned s k) as [E _]. rewrite E. exact H.
+  - cbn in Hl. destruct (v_ban_monotone v); [exact H|]. cbn. unfold upd. rewrite N.eqb_sym, Hl. exact H.
+  - cbn in Hl. destruct (permb s a0); [exact H|]. cbn. unfold upd. rewrite N.eqb_sym, Hl. exact H.
 Qed.
 
 Theorem ban_in_force_persists hmac mf pb v es : forall s a,
@@ -887,4 +990,47 @@ Proof.
   induction es as [|e es IH]; intros s a H Hall; [exact H|].
   cbn in Hall. apply andb_prop in Hall as [He Hall]. apply negb_true_iff in He.
   cbn. apply IH; [|exact Hall]. apply step_banned_mono; assumption.
+Qed.
+
+(* ban strength only increases: PERMANENT is absorbing under every event except UnbanIP on that address and a restart — in
+   particular under every later failure (a temporary ban request) of a handshake already past the gate, and under the end
+   of any temporary period *)
+Lemma step_perm hmac mf pb v s e a : v_ban_monotone v = true ->
+  perm_banned s a -> lifts_perm a e = false -> perm_banned (fst (step hmac mf pb v s e)) a.
+Proof.
+  intros Hm H Hl. destruct e; cbn [step fst]; try exact H; try discriminate Hl;
+    try (apply handle_perm; assumption); try (rewrite Hm; apply ban_req_perm; exact H);
+    try (destruct (clients s x); exact H).
+  - destruct H as [H1 H2]. cbn in *. unfold perm_banned, upd. cbn. rewrite N.eqb_sym, Hl. auto.
+  - destruct (v_anon_delete v); exact H.
+  - unfold rekey. destruct (clients s x); exact H.
+  - unfold close, perm_banned. cbn. destruct (evict_banned s k) as [E1 E2]. rewrite E1, E2. exact H.
+  - unfold close, perm_banned. cbn. destruct (evict_banned s k) as [E1 E2]. rewrite E1, E2. exact H.
+  - rewrite Hm. exact H.
+  - destruct H as [H1 H2]. destruct (N.eqb_spec a0 a) as [->|Hne].
+    + rewrite H2. split; assumption.
+    + destruct (permb s a0); [split; assumption|]. unfold perm_banned. cbn. unfold upd.
+      destruct (N.eqb_spec a a0); [congruence|auto].
+Qed.
+
+Theorem perm_ban_absorbing hmac mf pb v es : v_ban_monotone v = true -> forall s a,
+  perm_banned s a -> forallb (fun e => negb (lifts_perm a e)) es = true ->
+  perm_banned (run hmac mf pb v s es) a.
+Proof.
+  intro Hm. induction es as [|e es IH]; intros s a H Hall; [exact H|].
+  cbn in Hall. apply andb_prop in Hall as [He Hall]. apply negb_true_iff in He.
+  cbn. apply IH; [|exact Hall]. apply step_perm; assumption.
+Qed.
+
+(* the tree as found (banIP overwrites): a permanently banned address is free again after a later temporary ban request of an
+   overlapped failing handshake and the end of that temporary period *)
+Lemma pinned_perm_overwritten_refuted :
+  exists es a,
+    perm_banned (run toy_hmac 1 20 pinned_variant init (firstn 2 es)) a /\
+    forallb (fun e => negb (lifts_perm a e)) (skipn 2 es) = true /\
+    banned (run toy_hmac 1 20 pinned_variant init es) a = false /\
+    perm_banned (run toy_hmac 1 20 current_variant init es) a.
+Proof.
+  exists [EOpen 1 0; EBanPerm 0; EBody 1 {| h_cid := 7; h_new := false; h_resp := None; h_tunnel := false |}; ETempLapse 0], 0.
+  unfold perm_banned. repeat split; vm_compute; reflexivity.
 Qed.
